@@ -32,6 +32,10 @@ pub enum Op {
     PushPanic(u64),
     /// extend whose fill callback panics at the k-th element
     ExtendPanic(Vec<u64>, usize),
+    /// extend with an (empty) iterator that reports a length that exhausts the index space
+    ExtendHuge,
+    /// push that may be refused (the documented capacity panic once the index space is exhausted)
+    PushChecked(u64),
 }
 
 #[derive(Clone, Debug)]
@@ -113,6 +117,20 @@ fn run_op(vec: &BoxcarVec<Payload>, s: &Sched, op: &Op) {
             }));
             s.user("ret", format!("\"api\":\"extend_panic\",\"vals\":{:?},\"at\":{},\"panicked\":{}", vals, at, r.is_err()));
         }
+        Op::ExtendHuge => {
+            s.user("call", "\"api\":\"extend_huge\"".to_string());
+            let it = LyingIter { vals: Vec::new().into_iter(), reported: u32::MAX as usize };
+            let r = std::panic::catch_unwind(std::panic::AssertUnwindSafe(|| vec.extend(it, fill)));
+            s.user("ret", format!("\"api\":\"extend_huge\",\"panicked\":{}", r.is_err()));
+        }
+        Op::PushChecked(v) => {
+            s.user("call", format!("\"api\":\"push_checked\",\"v\":{}", v));
+            let r = std::panic::catch_unwind(std::panic::AssertUnwindSafe(|| vec.push(Payload(*v), fill)));
+            match r {
+                Ok(idx) => s.user("ret", format!("\"api\":\"push_checked\",\"v\":{},\"panicked\":false,\"idx\":{}", v, idx)),
+                Err(_) => s.user("ret", format!("\"api\":\"push_checked\",\"v\":{},\"panicked\":true,\"idx\":-1", v)),
+            }
+        }
         Op::Get(i) => {
             s.user("call", format!("\"api\":\"get\",\"idx\":{}", i));
             let r = item_json(vec.get(*i));
@@ -121,7 +139,8 @@ fn run_op(vec: &BoxcarVec<Payload>, s: &Sched, op: &Op) {
         Op::Count => {
             s.user("call", "\"api\":\"count\"".to_string());
             let c = vec.count();
-            s.user("ret", format!("\"api\":\"count\",\"res\":{}", c));
+            // (TLC integers are 32 bit; only the capacity-exhausted scenario gets near)
+            s.user("ret", format!("\"api\":\"count\",\"res\":{}", c.min(2_000_000_000)));
         }
         Op::Snapshot(start) => {
             s.user("call", format!("\"api\":\"snapshot\",\"start\":{}", start));
@@ -203,9 +222,9 @@ pub fn render(log: &[crate::sched::Logged], addrs: &[(String, usize, usize, usiz
                 e.op,
                 e.ord,
                 e.ord_fail,
-                if loc == "bucket" { (e.val != 0) as u64 } else { e.val },
+                if loc == "bucket" { (e.val != 0) as u64 } else { e.val.min(2_000_000_000) },
                 e.ok,
-                if loc == "bucket" { regions.iter().rev().find(|r| r.base as u64 == e.args[0]).map_or(0, |r| r.id as u64) } else { e.args[0] },
+                if loc == "bucket" { regions.iter().rev().find(|r| r.base as u64 == e.args[0]).map_or(0, |r| r.id as u64) } else { e.args[0].min(2_000_000_000) },
                 e.file.rsplit('/').next().unwrap_or("")
             );
             if loc == "bucket" {
@@ -298,6 +317,58 @@ pub fn run_scenario(sc: &Scenario, policy: Policy, run_id: u64, lines: &mut Vec<
     render(&log, &[("v".to_string(), addrs.0, addrs.1, addrs.2)], &[], lines);
 }
 
+/// Memory balance of a vector whose items have no drop glue (and, as a control, of one whose items do): everything
+/// the vector allocated - buckets and the matcher columns of every published entry - must be released by its drop.
+/// Runs without the scheduler and without logging in between, so that the process-wide live-byte count is exact.
+pub fn memory_balance(run_id: u64, n: u32, cols: u32, plain: bool, lines: &mut Vec<String>) {
+    nucleo::verif::uninstall();
+    let text = |v: u64, k: usize| format!("plain item {} column {} with a heap allocated text", v, k);
+    let before = crate::alloc_count::live();
+    let mid;
+    if plain {
+        let vec = BoxcarVec::<u64>::with_capacity(8, cols);
+        for v in 0..n as u64 {
+            vec.push(v, |x, c| {
+                for (k, col) in c.iter_mut().enumerate() {
+                    *col = Utf32String::from(text(*x, k).as_str());
+                }
+            });
+        }
+        vec.extend((0..7u64).map(|x| x + 1_000_000).collect::<Vec<_>>().into_iter(), |x, c| {
+            for (k, col) in c.iter_mut().enumerate() {
+                *col = Utf32String::from(text(*x, k).as_str());
+            }
+        });
+        mid = crate::alloc_count::live();
+        drop(vec);
+    } else {
+        let vec = BoxcarVec::<String>::with_capacity(8, cols);
+        for v in 0..n as u64 {
+            vec.push(format!("owned {}", v), |x, c| {
+                for (k, col) in c.iter_mut().enumerate() {
+                    *col = Utf32String::from(format!("{} {}", x, k).as_str());
+                }
+            });
+        }
+        mid = crate::alloc_count::live();
+        drop(vec);
+    }
+    let after = crate::alloc_count::live();
+    lines.push(format!(
+        "{{\"seq\":1,\"tid\":0,\"role\":\"main\",\"site\":\"reset\",\"run\":{},\"scenario\":\"memory-balance-{}\",\"capacity\":8,\"cols\":{},\"prefill\":0,\"nthreads\":0}}",
+        run_id,
+        if plain { "plain-items" } else { "owned-items" },
+        cols
+    ));
+    lines.push("{\"seq\":2,\"tid\":0,\"role\":\"main\",\"site\":\"start\"}".to_string());
+    lines.push(format!("{{\"seq\":3,\"tid\":0,\"role\":\"main\",\"site\":\"call\",\"api\":\"mem_balance\",\"items\":{},\"plain\":{}}}", n + 7 * plain as u32, plain));
+    lines.push(format!(
+        "{{\"seq\":4,\"tid\":0,\"role\":\"main\",\"site\":\"ret\",\"api\":\"mem_balance\",\"held_while_alive\":{},\"held_after_drop\":{}}}",
+        mid - before,
+        after - before
+    ));
+}
+
 fn scenarios(thorough: bool, rng: &mut StdRng) -> Vec<Scenario> {
     let mut v = Vec::new();
     let s = |name: &str, cap: u32, cols: u32, prefill: u32, threads: Vec<Vec<Op>>| Scenario { name: name.into(), capacity: cap, cols, prefill, pre_extend: 0, threads };
@@ -318,6 +389,9 @@ fn scenarios(thorough: bool, rng: &mut StdRng) -> Vec<Scenario> {
     v.push(s("lazy-bucket-get", 0, 1, 20, vec![vec![Extend((1..=15).collect(), 15)], vec![Get(32), Get(33), Snapshot(30), Get(32)]]));
     v.push(s("lazy-bucket-push-get", 0, 2, 20, vec![vec![Extend((1..=11).collect(), 11), Push(50), Push(51)], vec![Get(32), Get(31), Get(32), Count]]));
     v.push(s("skip-bucket", 0, 1, 20, vec![vec![Extend(vec![1], 110), Push(7)], vec![Get(130), Get(20)]]));
+    // the index space is exhausted by a batch that reports an absurd length (and is refused after it has reserved the
+    // indices): every later push has to be refused too, none may be handed an index that is already in use
+    v.push(s("capacity-exhausted", 0, 1, 3, vec![vec![ExtendHuge, PushChecked(1), PushChecked(2)], vec![PushChecked(3), Get(0), Get(1)]]));
     // a batch that ends exactly on a bucket boundary bypasses the eager allocation: two pushes then race to
     // allocate the same bucket
     let mut b = s("alloc-race", 0, 1, 20, vec![vec![Push(1), Get(32), Get(33)], vec![Push(2), Get(33), Get(32)]]);
@@ -426,6 +500,28 @@ pub fn run(tier: &str, seed: u64, shards: usize, outdir: &str, only: Option<&str
             f.flush().unwrap();
         }
     }
+    // memory balance of whole vectors (items without and with drop glue), outside the scheduler
+    let mut extra = 0;
+    if only.map_or(true, |o| "memory-balance".contains(o)) {
+        for (n, cols, plain) in [(40u32, 1u32, true), (700, 2, true), (40, 1, false), (700, 2, false)] {
+            run_id += 1;
+            extra += 1;
+            let shard = (run_id as usize) % shards;
+            if shard_sel.map_or(false, |sel| sel != shard) || run_id < from {
+                continue;
+            }
+            let mut warm = Vec::new();
+            memory_balance(run_id, n, cols, plain, &mut warm); // first call pays for lazily initialised state
+            let mut lines = Vec::new();
+            memory_balance(run_id, n, cols, plain, &mut lines);
+            let path = format!("{}/shard-{:02}.ndjson", outdir, shard);
+            let f = files.entry(shard).or_insert_with(|| std::io::BufWriter::new(std::fs::OpenOptions::new().append(true).create(true).open(&path).unwrap()));
+            for l in lines {
+                writeln!(f, "{}", l).unwrap();
+            }
+            f.flush().unwrap();
+        }
+    }
     let _ = std::panic::take_hook();
-    println!("{{\"runs\":{},\"scenarios\":{},\"shards\":{}}}", run_id, scs.len(), shards);
+    println!("{{\"runs\":{},\"scenarios\":{},\"shards\":{}}}", run_id, scs.len() + (extra > 0) as usize, shards);
 }
